@@ -193,7 +193,7 @@ class C18(Check):
                 check_laws(res, self.id, sig, ranks, lambda: mk_custom(sig, t), quick, "custom")
             res.samples.append({"signature": sig, "table": list(tables[0]), "tables_in_task": len(tables)})
         else:
-            from .c16 import build, ref_ranks
+            from .c16 import InputMutated, build, ref_ranks
 
             for conds in task[1]:
                 for ext in (False, True):
@@ -205,7 +205,10 @@ class C18(Check):
                         o = build(scopes.SIG2, conds, [], ext)
                         o.compute_all_ranks()
                         return o
-                    check_laws(res, self.id, scopes.SIG2, rr[0], make, quick, "system-z")
+                    try:
+                        check_laws(res, self.id, scopes.SIG2, rr[0], make, quick, "system-z")
+                    except InputMutated:
+                        res.counters["system_z_objects_skipped_input_mutated"] += 1     # reported by C16
             res.samples.append({"system_z_bases": [[forms.ctxt(x) for x in cs] for cs in task[1][:1]]})
         res.digest = (res.evals, len(res.violations))
         return res
